@@ -47,8 +47,8 @@ func (sc *sliceCtx) visit(v ssa.Value, stack []*ssa.Call) {
 		for _, a := range x.Common().Args {
 			sc.visit(a, stack)
 		}
-		if x.Common().IsInvoke() {
-			sc.visit(x.Common().Value, stack)
+		if x.Common().IsInvoke() || x.Common().StaticCallee() == nil {
+			sc.visit(x.Common().Value, stack) // interface receiver, or the function value of a dynamic call
 		}
 		if cal := x.Common().StaticCallee(); cal != nil && inModule(cal) && len(stack) < 4 && cal.Blocks != nil {
 			for _, b := range cal.Blocks {
